@@ -587,6 +587,23 @@ fn pow_inputs(r: &mut Rng, n: usize, count: usize) -> Vec<(B, u32)> {
             }
         }
     }
+    // power-of-two bases with exponents where (log2 base) * exponent leaves the u32 range
+    for j in [1u32, 2, 3, 4, 8, 16, 32, w / 2, w - 1] {
+        if j == 0 || j >= w {
+            continue;
+        }
+        let q = ((1u64 << 32) / j as u64) as u32;
+        let cands = [q, q.wrapping_add(1), q.wrapping_sub(1), 1u32 << 31, u32::MAX, (1u32 << 31) + 1];
+        let take = if count >= 400 { cands.len() } else { 2 };
+        for _ in 0..take {
+            let e = *r.pick(&cands);
+            let b = gen::pow2(n, j as usize);
+            v.push((b.clone(), e));
+            if r.below(2) == 0 {
+                v.push((gen::negate(&b), e));
+            }
+        }
+    }
     // half-width bases squared / cubed
     let h = gen::pow2(n, (4 * n) as usize);
     for b in [h.clone(), gen::sub1(&h), gen::add1(&h), gen::negate(&h), gen::add1(&gen::negate(&h))] {
